@@ -52,4 +52,4 @@ def register(m):
     _o2b(m)
     Q = "symplyphysics/core/symbols/quantities.py"
     m("C02", "c02-quantity-order-ignores-dimension-regression", Q,
-      "    if not (is_any_dimension(lhs.scale_factor) or is_any_dimension(rhs.scale_factor) or\n            SI.get_dimension_system().equivalent_dims(lhs.dimension, rhs.dimension)):\n        return None\n", "", "P7")
+      "    if not (is_any_dimension(lhs.scale_factor) or is_any_dimension(rhs.scale_factor) or\n            SI.get_dimension_system().equivalent_dims(lhs.dimension, rhs.dimension)):\n        raise ValueError(f\"Dimension of '{rhs}' is {rhs.dimension}, but it should be {lhs.dimension}\")\n", "", "P7")
